@@ -54,6 +54,44 @@ module P = struct
     L.iter line (run_trace s0 (L.map op_of ops))
 end
 
+(* ---------------------------------------------------------------- StoreB *)
+module B = struct
+  open StoreB
+  let kind_of = function "buffer" -> KBuffer | "fleet" -> KFleet | "belt" -> KBelt | k -> failwith ("kind " ^ k)
+  let mode_of = function "FIFO" -> FIFO | "LIFO" -> LIFO | k -> failwith ("mode " ^ k)
+  let op_of w =
+    let i n = int_of_string (L.nth w n) in
+    match L.hd w with
+    | "RPUT" -> RPut (nat_of_int (i 1), z_of_int (i 2))
+    | "RGET" -> RGet (nat_of_int (i 1), z_of_int (i 2))
+    | "PUT" -> Put (nat_of_int (i 1), nat_of_int (i 2), nat_of_int (i 3))
+    | "GET" -> Get (nat_of_int (i 1), nat_of_int (i 2))
+    | "CPUT" -> CPut (nat_of_int (i 1))
+    | "CGET" -> CGet (nat_of_int (i 1))
+    | "READY" -> Ready (nat_of_int (i 1))
+    | "GATE" -> SetGate (i 1 <> 0)
+    | "SYNC" -> Sync (nat_of_int (i 1))
+    | o -> failwith ("op " ^ o)
+  let out_str = function
+    | OTok t -> "tok:" ^ string_of_int (int_of_nat t)
+    | OOk -> "ok"
+    | OItem it -> "item:" ^ string_of_int (int_of_nat it)
+    | OErr ERuntime -> "err:RuntimeError"
+    | OErr EIndex -> "err:IndexError"
+    | OErr EValue -> "err:ValueError"
+  let toks q = ints (L.map (fun r -> int_of_nat r.r_tok) q)
+  let line ((r, ts), s) =
+    Printf.printf "%s|%s|%s|%s|%s|%s|%s|%s\n" (out_str r)
+      (ints (L.map int_of_nat ts))
+      (ints (L.map int_of_nat s.transit)) (ints (L.map int_of_nat s.ready))
+      (toks s.putq) (toks s.putres) (toks s.getq)
+      (String.concat "," (L.map (fun (r, it) -> Printf.sprintf "%d:%d" (int_of_nat r.r_tok) (int_of_nat it)) s.getres))
+  let case hdr ops =
+    (* hdr: CASE storeb <kind> <mode> <cap> *)
+    let s0 = init (kind_of (L.nth hdr 2)) (mode_of (L.nth hdr 3)) (nat_of_int (int_of_string (L.nth hdr 4))) in
+    L.iter line (run_trace s0 (L.map op_of ops))
+end
+
 let () =
   let cur = ref None and ops = ref [] in
   let flush () =
@@ -63,6 +101,7 @@ let () =
          print_string "CASE\n";
          (match L.nth hdr 1 with
           | "storep" -> P.case hdr (L.rev !ops)
+          | "storeb" -> B.case hdr (L.rev !ops)
           | m -> failwith ("model " ^ m));
          print_string "END\n");
     cur := None; ops := [] in
